@@ -211,6 +211,7 @@ func (v *VStruct) validate(structName string, value reflect.Value, isValidGather
 					v.vc.initValid2FieldsMap(&name2Value{
 						validName:  validName,
 						objName:    structName,
+						owner:      structName,
 						fieldName:  fieldInfo.name,
 						cusMsg:     cusMsg,
 						reflectVal: fieldValue,
